@@ -46,7 +46,13 @@ def main():
         ev_backup = tempfile.mkdtemp(prefix="evbak_")
         for f in os.listdir(os.path.join(VERIF, "evidence")):
             shutil.copy(os.path.join(VERIF, "evidence", f), ev_backup)
+        if not a.in_place:
+            # a fresh clone per mutant: nothing a previous mutant run left behind can interfere
+            shutil.rmtree(SCRATCH, ignore_errors=True)
+            sh(["git", "clone", "-q", "/repo", SCRATCH])
         r = sh(["git", "-C", REPO, "apply", os.path.join(d, "patch.diff")])
+        if r.returncode != 0:
+            r = sh(["patch", "-p1", "-F3", "-s", "-i", os.path.join(d, "patch.diff")], cwd=REPO)
         if r.returncode != 0:
             rows.append((sid, "-", "PATCH DOES NOT APPLY", 0)); shutil.rmtree(ev_backup, ignore_errors=True); continue
         try:
